@@ -1576,7 +1576,10 @@ func New(ctx context.Context, store storage.Store, stm *semantic.Statement, chan
 			tracer: w,
 		}, nil
 	case semantic.Construct:
-		qp, _ := newQueryPlan(ctx, store, stm, chanSize, w)
+		qp, err := newQueryPlan(ctx, store, stm, chanSize, w)
+		if err != nil {
+			return nil, err
+		}
 		return &constructPlan{
 			stm:       stm,
 			store:     store,
@@ -1586,7 +1589,10 @@ func New(ctx context.Context, store storage.Store, stm *semantic.Statement, chan
 			construct: true,
 		}, nil
 	case semantic.Deconstruct:
-		qp, _ := newQueryPlan(ctx, store, stm, chanSize, w)
+		qp, err := newQueryPlan(ctx, store, stm, chanSize, w)
+		if err != nil {
+			return nil, err
+		}
 		return &constructPlan{
 			stm:       stm,
 			store:     store,
